@@ -36,7 +36,18 @@ func (n *InfluxQLNode) Build(q *pipeline.InfluxQLNode) (ast.Node, error) {
 		}
 		args = append(args, q.Args...)
 	}
-	n.Pipe(q.Method, args...).
+	method := q.Method
+	if method == "holtWinters" && len(q.Args) == 4 {
+		// The trailing argument is not part of the call: it selects holtWintersWithFit.
+		if fit, ok := q.Args[3].(bool); ok {
+			args = args[:len(args)-1]
+			if fit {
+				method = "holtWintersWithFit"
+			}
+		}
+	}
+	// The arguments are positional: a zero (no seasonality, 0th percentile) must stay.
+	n.PipeZeroValueOK(method, args...).
 		Dot("as", q.As).
 		DotIf("usePointTimes", q.PointTimes)
 	return n.prev, n.err
